@@ -412,7 +412,7 @@ pub fn parse_choice_text(input: &str) -> Result<ParsedChoiceText, CompilerError>
     if let Some((before, after)) = trimmed.split_once("[]") {
         let display = before.trim_end().to_owned();
         let raw_suffix = after.trim_start();
-        let had_space_before_inline_divert = split_inline_divert(raw_suffix)
+        let had_space_before_inline_divert = split_inline_divert(after)
             .and_then(|(text, _)| text.chars().last())
             .is_some_and(char::is_whitespace);
         let (suffix, inline_target) = split_inline_choice_divert(raw_suffix)?;
@@ -453,7 +453,7 @@ pub fn parse_choice_text(input: &str) -> Result<ParsedChoiceText, CompilerError>
         let start = &trimmed[..open];
         let choice_only = trimmed[open + 1..close].trim();
         let end = trimmed[close + 1..].trim_start();
-        let had_space_before_inline_divert = split_inline_divert(end)
+        let had_space_before_inline_divert = split_inline_divert(&trimmed[close + 1..])
             .and_then(|(text, _)| text.chars().last())
             .is_some_and(char::is_whitespace);
         let (end, inline_target) = split_inline_choice_divert(end)?;
